@@ -57,6 +57,15 @@ def run(rep, tier):
                     (C18sym.C19sym.FS_RS, "FileSystem::verify_upload_id, prepare_file_write, FileWriter"), (C18sym.C19sym.UT_RS, "copy_bytes"),
                     (C18sym.RANGE_RS, "Range::check")):
         rep.encoded(f, what)
+    def listings_tier(prog_):
+        # the two-level tree (<= 2 entries per directory) and a flat directory of up to 4 (thorough: 6) files
+        findings, stats = {}, {"paths": 0, "configurations": []}
+        for width, levels in ((2, 2), (4, 1) if tier == "quick" else (6, 1)):
+            f_, st_ = C18sym.listings(prog_, width, levels)
+            findings.update(f_)
+            stats["paths"] += st_["paths"]
+            stats["configurations"].append(dict(st_, width=width, levels=levels))
+        return findings, stats
     sym = {}
     parts = (("R", "ranged reads: for every object length < 2^63 and every Range value Range::parse can produce, get_object refuses exactly the RFC 9110 "
                    "unsatisfiable ranges and otherwise seeks to, streams, and reports (Content-Length, Content-Range) exactly the RFC 9110 slice; no panic", C18sym.ranged_reads),
@@ -67,7 +76,7 @@ def run(rep, tier):
                    "each listed part number equals its position", C18sym.part_order),
              ("L", "listings: for every directory tree of the bound (<= 2 entries per directory, depth <= 2, up to 4 files; names, prefix and marker symbolic; "
                    "keys ordered by an uninterpreted total order) list_objects_v2 returns exactly the '/'-joined keys that have the prefix and lie after "
-                   "the marker, each once, in ascending order, with KeyCount = their number", C18sym.listings),
+                   "the marker, each once, in ascending order, with KeyCount = their number; also for a flat directory of up to 4 (thorough: 6) files", listings_tier),
              ("T", "store transitions: on every successful path of put / copy / delete the mutating effects on non-temporary paths are exactly the "
                    "transition's (object, its metadata and internal-info files; the copy reads the named source); get / head have none; a failing get / "
                    "head / delete / copy has none", C18sym.transitions),
